@@ -451,8 +451,14 @@ Qed.
 Theorem C01_piece_roundtrip_partial : forall (g : Z) (c : cfg) (tracks : list (list msg)),
   valid_cfg g c = true -> valid_piece g c tracks = true ->
   exists evs toks st ids seqs,
-    tok_frontend tracks = Ok evs /\ valid_events g c evs = true /    tokenise c (tstate0 c) tracks = Ok (toks, st) /\ Forall (fun t => In t (vocab c)) toks /    encode c toks = Ok ids /\ decode c ids = Ok toks /    t_time st = r_time (run_end c (rclk0 c) evs) /\ t_tbar st = 0 /    detokenise c toks = Ok seqs /\ length seqs = length tracks /    forall i, (i < length tracks)%nat ->
-      Permutation (filter rel (nth i seqs [])) (exp_track c evs i) /      Permutation (filter is_note (nth i seqs [])) (flat_map (note_msgs c) (notes_of (nth i tracks []))).
+    tok_frontend tracks = Ok evs /\ valid_events g c evs = true /\
+    tokenise c (tstate0 c) tracks = Ok (toks, st) /\ Forall (fun t => In t (vocab c)) toks /\
+    encode c toks = Ok ids /\ decode c ids = Ok toks /\
+    t_time st = r_time (run_end c (rclk0 c) evs) /\ t_tbar st = 0 /\
+    detokenise c toks = Ok seqs /\ length seqs = length tracks /\
+    forall i, (i < length tracks)%nat ->
+      Permutation (filter rel (nth i seqs [])) (exp_track c evs i) /\
+      Permutation (filter is_note (nth i seqs [])) (flat_map (note_msgs c) (notes_of (nth i tracks []))).
 Proof.
   intros g c tracks Hc Hv.
   pose proof (frontend_valid g c tracks Hv) as Hval.
